@@ -10,6 +10,7 @@ import contextlib
 import io
 import itertools
 import math
+import os
 import shutil
 import tempfile
 
@@ -76,10 +77,13 @@ def make_setting(kind, n_rep=2, seed_data=777, seed_qop=888):
             num_history_stopping_criterion_gradient_descent=1, eps=1e-8, max_iteration_optimization=200)
     return EstimatorTestSetting(
         true_object=true, tester_objects=testers, seed_qoperation=seed_qop, seed_data=seed_data, n_sample=2, n_rep=n_rep,
-        num_data=[10, 100], schedules="all", case_names=["lin", "plin", "lsq"],
-        estimators=[LinearEstimator(), ProjectedLinearEstimator(mode_proj_order="eq_ineq"), LossMinimizationEstimator()],
+        num_data=[10, 100], schedules="all", case_names=["wlsq", "lin", "plin"],
+        # the loss-minimisation case comes FIRST and uses data-dependent (inverse covariance) weights: whatever it does to the
+        # shared empirical distributions is seen by the cases after it in a serial run and not in a parallel one
+        estimators=[LossMinimizationEstimator(), LinearEstimator(), ProjectedLinearEstimator(mode_proj_order="eq_ineq")],
         eps_proj_physical_list=[1e-5] * 3, eps_truncate_imaginary_part_list=[1e-5] * 3,
-        algo_list=[(None, None), (None, None), (PGDB(), po)], loss_list=[(None, None), (None, None), (SE(), SEO("identity"))],
+        algo_list=[(PGDB(), po), (None, None), (None, None)],
+        loss_list=[(SE(), SEO(os.environ.get("C15_LSQ_MODE", "inverse_sample_covariance"))), (None, None), (None, None)],
         parametrizations=[True, True, True], c_sys=c)
 
 
@@ -94,6 +98,22 @@ def observe(results):
         h.append("E" + A.digest(*[np.asarray(v, dtype=float) for er in r.estimation_results for v in er.estimated_var_sequence]))
         h.append("I" + repr(sorted(r.result_index.items())))
     return h
+
+
+def frequency_defects(results):
+    """stored empirical distributions are relative frequencies k/N of N draws; returns (number checked, number with a zero count, defects)"""
+    n, nz, bad = 0, 0, []
+    for r in results:
+        for rep in r.empi_dists_sequences:
+            for seq in rep:
+                for (N, q) in seq:
+                    q = np.asarray(q, dtype=float)
+                    k = q * N
+                    n += 1
+                    nz += int((q == 0).any())
+                    if np.abs(k - np.round(k)).max() > 1e-9 * N or abs(k.sum() - N) > 1e-9 * N or q.min() < 0:
+                        bad.append((N, q.tolist()))
+    return n, nz, bad
 
 
 EXEC_CHECK = dict(consistency=False, mse_of_estimators=False, mse_of_empi_dists=False, physicality_violation=True)
@@ -167,7 +187,7 @@ def guards(summary):
     g = []
     info = summary["info"]
     for k in ("schedules_executed", "schedules_with_deviation", "parallel_calls_seen", "repetition_pairs_compared", "re_estimates_compared",
-              "depolarized_checked", "lindbladian_generated", "physicality_verdict_true", "physicality_verdict_false", "real_joblib_compared"):
+              "depolarized_checked", "depolarized_nonunital_bases", "stored_empi_dists_with_zero_count", "lindbladian_generated", "physicality_verdict_true", "physicality_verdict_false", "real_joblib_compared"):
         if info.get(k, 0) < 1:
             g.append("never seen: " + k)
     return g
@@ -190,6 +210,15 @@ def ex_flow(p, seed):
     cfgname = "serial" if pm is None else ",".join("%s=%d" % (k.replace("per_", ""), v) for k, v in sorted(pm.items()))
     if base != base2:
         out.fail("flow:not-repeatable:serial", "two serial executions of the same settings differ: %r" % diff_fields(base, base2))
+    if pm is None:
+        keep = []
+        run_flow(kind, n_rep, None, (), keep=keep)
+        nchk, nzero, bad = frequency_defects(keep)
+        out.count("stored_empi_dists_checked", nchk)
+        out.count("stored_empi_dists_with_zero_count", nzero)
+        if bad:
+            out.fail("flow:stored-empirical-distribution-not-relative-frequencies:%s" % kind,
+                     "%d of %d stored distributions are not k/N, e.g. N=%d q=%r" % (len(bad), nchk, bad[0][0], bad[0][1]))
     if pm is None:
         out.count("schedules_executed", 2)
         out.outcome = "serial"
@@ -492,13 +521,34 @@ def ex_depol(p, seed):
     typ, systag = p["type"], p["sys"]
     c = A.make_system(systag)
     d = c.dim
-    bases = BASES[typ] if systag == "Q1" else BASES2[typ]
+    bases = list(BASES[typ] if systag == "Q1" else BASES2[typ])
+    # base objects handed over as objects: generic ones (mixed state, non-projective POVM, NON-UNITAL channel / instrument)
+    if typ == "state":
+        generic = [A.q_state(c, A.states_ref(d, seed)["mixed_generic"])]
+    elif typ == "povm":
+        generic = [A.q_povm(c, A.povm_generic(d, 3, seed, salt=4))]
+    elif typ == "gate":
+        g = A.gates_ref(d, seed)
+        generic = [A.q_gate(c, g["ampdamp"]), A.q_gate(c, g["kraus_generic_r2"])]
+    else:
+        ins = A.instruments_ref(d, seed, ms=(2,))
+        generic = [A.q_mprocess(c, ins["feedback_m2"]), A.q_mprocess(c, ins["multikraus_m2"])]
+    nonunital = 0
+    for gobj in generic:
+        bases.append(gobj)
+        if typ in ("gate", "mprocess"):
+            acts = [ref_of_obj(gobj)] if typ == "gate" else ref_of_obj(gobj)
+            tot = sum(a(np.eye(d) / d) for a in acts)
+            if np.abs(tot - np.eye(d) / d).max() > 1e-3:
+                nonunital += 1
+    if typ in ("gate", "mprocess"):
+        out.count("depolarized_nonunital_bases", nonunital)
     X = R.generic_matrix(d, seed, salt=3)
     for base in bases:
         for pr in (0.0, 1e-3, 0.5, 1.0):
             ok, obj = A.call(lambda: DS(c, base, pr).generate())
             out.ops += 1
-            site = "depolarized:%s:%s" % (typ, systag)
+            site = "depolarized:%s:%s:%s" % (typ, systag, "named-base" if isinstance(base, tuple) else "generic-base-object")
             if not ok:
                 out.fail(site + ":raises", "%r p=%g: %s" % (base, pr, A.fmt_exc(obj)))
                 continue
